@@ -192,10 +192,30 @@ def check_handler(chk, repo, f, t, h, rid, expect_slot=None):
                     keeps = [i for i, e in enumerate(elts) if unparse(e) == f"success_flags[{i}]"]
                     if len(falses) == 1 and len(falses) + len(keeps) == 3 and (expect_slot is None or falses[0] == expect_slot):
                         recorded = True
+                slot_ = None
+                if isinstance(a, ast.Assign) and len(a.targets) == 1 and isinstance(a.targets[0], ast.Subscript):
+                    sl_ = a.targets[0].slice
+                    if isinstance(sl_, ast.Constant):
+                        slot_ = sl_.value
+                    elif isinstance(sl_, ast.Name):
+                        # a named slot: `a, b, c = range(3)` / `= (0, 1, 2)` / `b = 1` (single assignment) in this function
+                        for x in ast.walk(f.node):
+                            if isinstance(x, ast.Assign) and len(x.targets) == 1 and isinstance(x.targets[0], ast.Tuple) and all(isinstance(t_, ast.Name) for t_ in x.targets[0].elts):
+                                names_ = [t_.id for t_ in x.targets[0].elts]
+                                if sl_.id in names_:
+                                    if isinstance(x.value, ast.Call) and unparse(x.value.func) == 'range' and len(x.value.args) == 1 and isinstance(x.value.args[0], ast.Constant) \
+                                            and x.value.args[0].value == len(names_):
+                                        slot_ = names_.index(sl_.id)
+                                    elif isinstance(x.value, ast.Tuple) and len(x.value.elts) == len(names_) and isinstance(x.value.elts[names_.index(sl_.id)], ast.Constant):
+                                        slot_ = x.value.elts[names_.index(sl_.id)].value
+                            elif isinstance(x, ast.Assign) and len(x.targets) == 1 and isinstance(x.targets[0], ast.Name) and x.targets[0].id == sl_.id and isinstance(x.value, ast.Constant):
+                                slot_ = x.value.value
+                        if sum(1 for x in ast.walk(f.node) if isinstance(x, ast.Name) and x.id == sl_.id and isinstance(x.ctx, ast.Store)) != 1:
+                            slot_ = None
                 if isinstance(a, ast.Assign) and len(a.targets) == 1 and isinstance(a.targets[0], ast.Subscript) and isinstance(a.value, ast.Constant) \
-                        and a.value.value is False and isinstance(a.targets[0].slice, ast.Constant) and isinstance(a.targets[0].value, ast.Name):
+                        and a.value.value is False and slot_ is not None and isinstance(a.targets[0].value, ast.Name):
                     # the flags are kept in a list mutated by index (`flags[k] = False`) and returned as / converted to the tuple
-                    if expect_slot is None or a.targets[0].slice.value == expect_slot:
+                    if expect_slot is None or slot_ == expect_slot:
                         fl_ = a.targets[0].value.id
                         inits_ = [x for x in ast.walk(f.node) if isinstance(x, (ast.Assign, ast.AnnAssign)) and unparse(x.targets[0] if isinstance(x, ast.Assign) else x.target) == fl_
                                   and isinstance(x.value, (ast.List, ast.Tuple)) and len(x.value.elts) == 3]
